@@ -36,15 +36,17 @@ fn build_valid(rng: &mut Rng) -> Vec<u8> {
     let mut ab = qb.answer();
     let mut owner = qname;
     let ttl = Ttl::from_secs(rng.below(100000) as u32 * 7919);
-    for _ in 0..rng.below(4) {
+    // records of other classes next to IN: what limit_to_in passes over
+    let class = |rng: &mut Rng| *rng.pick(&[Class::IN, Class::IN, Class::IN, Class::CH, Class::HS, Class::NONE, Class::ANY]);
+    for _ in 0..rng.below(5) {
         match rng.below(6) {
             0 => {
                 let t = pick(rng);
-                ab.push(Record::new(owner.clone(), Class::IN, ttl, Cname::new(t.clone()))).unwrap();
+                ab.push(Record::new(owner.clone(), class(rng), ttl, Cname::new(t.clone()))).unwrap();
                 owner = t;
             }
-            1 => ab.push(Record::new(owner.clone(), Class::IN, ttl, A::from_octets(1, 2, 3, 4))).unwrap(),
-            2 => ab.push(Record::new(owner.clone(), Class::IN, ttl, Mx::new(10, pick(rng)))).unwrap(),
+            1 => ab.push(Record::new(owner.clone(), class(rng), ttl, A::from_octets(1, 2, 3, rng.below(250) as u8))).unwrap(),
+            2 => ab.push(Record::new(owner.clone(), class(rng), ttl, Mx::new(10, pick(rng)))).unwrap(),
             3 => ab
                 .push(Record::new(
                     owner.clone(),
@@ -65,7 +67,7 @@ fn build_valid(rng: &mut Rng) -> Vec<u8> {
     }
     let mut xb = nb.additional();
     if rng.chance(1, 2) {
-        xb.push(Record::new(pick(rng), Class::IN, ttl, A::from_octets(9, 9, 9, 9))).unwrap();
+        xb.push(Record::new(pick(rng), class(rng), ttl, A::from_octets(9, 9, 9, 9))).unwrap();
     }
     if rng.chance(2, 3) {
         xb.opt(|o| {
